@@ -364,6 +364,178 @@ func run(w *core.Worker, c Case) {
 	}
 }
 
+
+// ---- lists holding DUPLICATE values: only the operations whose meaning the property fixes in
+// that situation are used - Unshift/Append/Shift/Pop, Replace ("changes the first occurrence
+// or reports absence") and Find (a node holding the value iff it occurs) - checked by Each.
+
+type DupOp struct {
+	K string `json:"op"` // unshift append shift pop replace find
+	A int    `json:"a,omitempty"`
+	B int    `json:"b,omitempty"`
+}
+
+type DupCase struct {
+	Double bool    `json:"double"`
+	Ops    []DupOp `json:"ops"`
+}
+
+func runDup(w *core.Worker, c DupCase) {
+	var impl lst
+	nm := "slist"
+	if c.Double {
+		nm = "dlist"
+		impl = dl{list.InitDList(1)}
+	} else {
+		impl = sl{list.Init(1)}
+	}
+	model := []int{1}
+	dupSeen := false
+	for i, op := range c.Ops {
+		stop := false
+		p := core.Catch(func() {
+			switch op.K {
+			case "unshift":
+				impl.unshift(op.A)
+				model = insertAt(model, 0, op.A)
+			case "append":
+				impl.append(op.A)
+				model = append(model, op.A)
+			case "shift":
+				if len(model) > 1 {
+					impl.shift()
+					model = model[1:]
+				}
+			case "pop":
+				if len(model) > 1 {
+					impl.pop()
+					model = model[:len(model)-1]
+				}
+			case "replace":
+				err := impl.replace(op.A, op.B)
+				j := idx(model, op.A)
+				if (err == nil) != (j >= 0) {
+					w.Violation(nm+".replace-result", fmt.Sprintf("step %d: Replace(%d,%d) err=%v, model %v", i, op.A, op.B, err, model))
+					stop = true
+					return
+				}
+				if j >= 0 {
+					model[j] = op.B
+				}
+			case "find":
+				v, ok, nilNode := impl.find(op.A)
+				if ok != (idx(model, op.A) >= 0) || (ok && (nilNode || v != op.A)) {
+					w.Violation(nm+".find", fmt.Sprintf("step %d: Find(%d)=(%d,%v,nil node %v), model %v", i, op.A, v, ok, nilNode, model))
+					stop = true
+				}
+			}
+		})
+		if p != nil {
+			w.Violation(nm+".panic:"+op.K, fmt.Sprintf("duplicates: step %d %+v panicked: %v; model %v", i, op, p, model))
+			return
+		}
+		if stop {
+			return
+		}
+		var seen []int
+		over := false
+		if p := core.Catch(func() {
+			impl.each(func(v int) {
+				seen = append(seen, v)
+				if len(seen) > len(model)+4 {
+					over = true
+					panic("verif: each overrun")
+				}
+			})
+		}); p != nil && !over {
+			w.Violation(nm+".panic:each", fmt.Sprintf("duplicates: Each after step %d panicked: %v", i, p))
+			return
+		}
+		if over || !eqInts(seen, model) {
+			w.Violation(nm+".sequence", fmt.Sprintf("duplicates: after step %d %+v the list reads %v, model %v", i, op, seen, model))
+			return
+		}
+		cnt := map[int]int{}
+		for _, v := range model {
+			cnt[v]++
+			if cnt[v] > 1 {
+				dupSeen = true
+			}
+		}
+	}
+	if dupSeen {
+		w.NonTrivial(core.HashString(core.JSON(c)))
+	}
+}
+
+func eqInts(a, b []int) bool {
+	if len(a) != len(b) {
+		return false
+	}
+	for i := range a {
+		if a[i] != b[i] {
+			return false
+		}
+	}
+	return true
+}
+
+// ---- very long lists (tens of thousands of nodes): walks must reach the real end
+
+type LongCase struct {
+	Double bool `json:"double"`
+	N      int  `json:"n"`
+}
+
+func runLong(w *core.Worker, c LongCase) {
+	var impl lst
+	nm := "slist"
+	if c.Double {
+		nm = "dlist"
+		impl = dl{list.InitDList(0)}
+	} else {
+		impl = sl{list.Init(0)}
+	}
+	p := core.Catch(func() {
+		for i := 1; i < c.N; i++ {
+			impl.unshift(i) // list reads N-1, ..., 1, 0
+		}
+		w.Tick()
+		count := func() (n, first, last int) {
+			impl.each(func(v int) {
+				if n == 0 {
+					first = v
+				}
+				last = v
+				n++
+			})
+			return
+		}
+		impl.append(-5)
+		n, first, last := count()
+		if n != c.N+1 || first != c.N-1 || last != -5 {
+			w.Violation(nm+".sequence", fmt.Sprintf("long list: after %d Unshift and one Append the list has %d elements, first %d, last %d (want %d, %d, -5)", c.N-1, n, first, last, c.N+1, c.N-1))
+			return
+		}
+		w.Tick()
+		impl.pop()
+		impl.pop()
+		n, first, last = count()
+		if n != c.N-1 || last != 1 {
+			w.Violation(nm+".sequence", fmt.Sprintf("long list: after two Pop the list has %d elements, last %d (want %d, 1)", n, last, c.N-1))
+			return
+		}
+		if v, ok, nilNode := impl.find(1); !ok || nilNode || v != 1 {
+			w.Violation(nm+".find", fmt.Sprintf("long list: Find(1) (the last element) = (%d,%v)", v, ok))
+		}
+	})
+	if p != nil {
+		w.Violation(nm+".panic:long", fmt.Sprintf("long list (%d nodes) panicked: %v", c.N, p))
+		return
+	}
+	w.NonTrivial(core.HashString(core.JSON(c)))
+}
+
 func alphabet(double bool) []Op {
 	a := []Op{{K: "unshift"}, {K: "append"}, {K: "shift"}, {K: "pop"}}
 	for _, p := range []string{"first", "middle", "last"} {
@@ -378,7 +550,7 @@ func alphabet(double bool) []Op {
 func TestProp(t *testing.T) {
 	r := core.Start(t, "C19")
 	defer r.Finish()
-	r.Rule("cases = edit sequences on list.SList[int]/list.DList[int] with fresh distinct values and node handles taken from Find immediately before use (positions first/middle/last/absent), checked against a slice model after EVERY step: the Each sequence, First/Last, Find of every value ever used, returned errors, no panic, no cycle (Each bounded by the number of values ever inserted), observers do not mutate; non-trivial = at least 2 effective edits; distinct by hash of (list type, ops)")
+	r.Rule("cases = edit sequences on list.SList[int]/list.DList[int] with fresh distinct values and node handles taken from Find immediately before use (positions first/middle/last/absent), checked against a slice model after EVERY step: the Each sequence, First/Last, Find of every value ever used, returned errors, no panic, no cycle (Each bounded by the number of values ever inserted), observers do not mutate; list-duplicates: lists holding duplicate values under Unshift/Append/Shift/Pop/Replace (first occurrence)/Find, Each after every step; list-long: 70 001 and 140 000 nodes, then Append/Pop/Find at the far end; non-trivial = at least 2 effective edits; distinct by hash of (list type, ops)")
 
 	L := r.Pick(5, 6)
 	core.Monitor(r, "list-sweep", 0, func(emit func(Case)) {
@@ -411,4 +583,25 @@ func TestProp(t *testing.T) {
 			emit(c)
 		}
 	}, run)
+
+	core.Monitor(r, "list-duplicates", 0, func(emit func(DupCase)) {
+		var alpha []DupOp
+		for _, v := range []int{1, 2} {
+			alpha = append(alpha, DupOp{K: "unshift", A: v}, DupOp{K: "append", A: v}, DupOp{K: "find", A: v})
+		}
+		alpha = append(alpha, DupOp{K: "shift"}, DupOp{K: "pop"}, DupOp{K: "replace", A: 1, B: 2}, DupOp{K: "replace", A: 2, B: 1}, DupOp{K: "replace", A: 1, B: 3}, DupOp{K: "replace", A: 3, B: 1}, DupOp{K: "find", A: 3})
+		L := r.Pick(5, 6)
+		for _, d := range []bool{false, true} {
+			n := seq.Enum(alpha, L, func(ops []DupOp) { emit(DupCase{Double: d, Ops: ops}) })
+			r.Exhaustive(fmt.Sprintf("lists with duplicate values: all sequences of length<=%d over %d operations (values 1..3), double=%v", L, len(alpha), d), n)
+		}
+	}, runDup)
+
+	core.Monitor(r, "list-long", 2, func(emit func(LongCase)) {
+		for _, d := range []bool{false, true} {
+			for _, n := range []int{70001, 140000} {
+				emit(LongCase{Double: d, N: n})
+			}
+		}
+	}, runLong)
 }
